@@ -36,8 +36,8 @@ stage = [
              why='the two default member initialisers, as ctor-body stores'),
     ]),
     frag('defaults', r'struct defaults(?= \{)', semicolon=True),
-    frag('calc_retired_size', r'size_t calc_retired_size\( size_t nSize, size_t nHPCount, size_t nThreadCount \)'),
-    frag('ctor', r'CDS_EXPORT_API basic_smr::basic_smr\(size_t nHazardPtrCount, size_t nMaxThreadCount, size_t nMaxRetiredPtrCount, scan_type nScanType \)', rewrites=[
+    frag('calc_retired_size', r'size_t calc_retired_size\('),
+    frag('ctor', r'CDS_EXPORT_API basic_smr::basic_smr\(', rewrites=[
         dict(lit=', scan_func_( nScanType == classic ? &basic_smr::classic_scan : &basic_smr::inplace_scan )', to='', count=1,
              why='pointer to member function; this line is the rule that scan() rewrite reproduces'),
     ]),
@@ -45,20 +45,20 @@ stage = [
         dict(lit='for ( retired_ptr* cur{ arr.first() }, *last{ arr.last() }; cur != last; ++cur ) {', to='for ( retired_ptr* cur = arr.first(), *last = arr.last(); cur != last; ++cur ) {', count=1,
              why='brace initialisers in a for-init declaration'),
     ]),
-    frag('free_thread_data', r'CDS_EXPORT_API void basic_smr::free_thread_data\(basic_smr::thread_record\* pRec, bool callHelpScan \)'),
+    frag('free_thread_data', r'CDS_EXPORT_API void basic_smr::free_thread_data\('),
     frag('detach_all_thread', r'CDS_EXPORT_API void basic_smr::detach_all_thread\(\)'),
     frag('alloc_thread_data', r'CDS_EXPORT_API basic_smr::thread_record\* basic_smr::alloc_thread_data\(\)'),
-    frag('inplace_scan', r'CDS_EXPORT_API void basic_smr::inplace_scan\(thread_data\* pThreadRec \)', rewrites=[
+    frag('inplace_scan', r'CDS_EXPORT_API void basic_smr::inplace_scan\(', rewrites=[
         dict(lit='for ( auto it = first_retired; it != last_retired; ++it ) {', to='for ( retired_ptr* it = first_retired; it != last_retired; ++it ) {', count=1, why=AUTO),
         dict(lit='for ( auto hp = hpstg.begin(), end = hpstg.end(); hp != end; ++hp ) {', to='for ( guard* hp = hpstg.begin(), *end = hpstg.end(); hp != end; ++hp ) {', count=1, why=AUTO),
     ]),
-    frag('classic_scan', r'CDS_EXPORT_API void basic_smr::classic_scan\(thread_data\* pThreadRec \)', rewrites=[
+    frag('classic_scan', r'CDS_EXPORT_API void basic_smr::classic_scan\(', rewrites=[
         dict(lit='auto itBegin = plist.begin();', to='void** itBegin = plist.begin();', count=1, why=AUTO),
         dict(lit='auto itEnd = plist.end();', to='void** itEnd = plist.end();', count=1, why=AUTO),
         dict(lit='std::memory_order_relaxed', to='atomics::memory_order_relaxed', count=1, why='same enumerator (namespace atomics = std)'),
     ]),
-    frag('help_scan', r'CDS_EXPORT_API void basic_smr::help_scan\(thread_data\* pThis \)'),
-    frag('retire', r'static void retire\( T \* p, void\( \*func \)\( void \* \)\)', path='cds/gc/hp.h', body_only=True),
+    frag('help_scan', r'CDS_EXPORT_API void basic_smr::help_scan\('),
+    frag('retire', r'static void retire\( T \* \w+, void\( \*\w+ \)\( void \* \)\)', path='cds/gc/hp.h', body_only=True),
 ]
 
 # retired pointers / hazard values are abstract address values (never dereferenced); the real code orders them with <
